@@ -455,8 +455,8 @@ def c16_run(mon, s):
             if pp.Provided:
                 ptc_val = float(pp.value)
                 if unit_factor is None:
-                    # PTC heat/cooling are declared in USD/MMBTU; the price is USD/kWh: 1 MMBTU = 293.07107 kWh
-                    ptc_val = ptc_val / 293.07107 if (pp.CurrentUnits or '').upper().endswith('MMBTU') else ptc_val
+                    # PTC heat/cooling are declared in USD/MMBTU; the price is USD/kWh: 1 MMBTU = 1055.056e6 J (pint's BTU)
+                    ptc_val = ptc_val * 3.6e6 / 1055.056e6 if (pp.CurrentUnits or '').upper().endswith('MMBTU') else ptc_val
         ptc = R.ptc_schedule(L, dur, ptc_val, adj, infl)
         want = [0.0] * cy + R.price_schedule(L, float(getattr(ec, sp_).value), float(getattr(ec, ep_).value),
                                              int(getattr(ec, t0_).value), float(getattr(ec, rt_).value), ptc)
